@@ -8,23 +8,35 @@ LEAN_PROPS = ["FcpptProofs.Props.C17"]
 HARNESS = {"src": "harness/c17.cpp"}
 TIE = ("hand-written model (FcpptModel/Model/C17.lean, one definition per comparison header) + differential correspondence "
        "against the real templates: digests over complete finite domains, refined to single operand pairs / triples")
-RULE = ("sts ty a lo hi: digest over b in [lo,hi] of all 28 strong_typedef observations (binary/unary arithmetic and bitwise, "
-        "++/--, op=, six comparisons, hash, type_iso) for operands (a,b) - exhaustive over [-128,127]^2 for int and over all pairs of "
-        "wrap-around boundary values for unsigned / unsigned long (and overflow boundary values for int / long, `ub` where the "
-        "plain operator is undefined). rels type maxlen a: digest over every value b of the type with components in {0,1,2} of "
-        "== != < > <= >= (as offered), hash agreement and type-specific extras - run for every a, i.e. all ordered pairs; "
+RULE = ("sts ty a lo hi: digest over b in [lo,hi] of all strong_typedef observations (binary/unary arithmetic and bitwise, "
+        "++/--, op=, six comparisons, hash, type_iso; each also compared with the built-in operator in C++ itself) for operands (a,b) - "
+        "exhaustive over [-128,127]^2 for int, over all pairs of signed char / unsigned char (integral promotion: op=, ++/--, comparisons), "
+        "over all pairs of wrap-around boundary values for unsigned / unsigned long / unsigned short (overflow boundary values for "
+        "int / long / short, `ub` where the built-in operator is undefined). stselfs: the SAME object on both sides of every binary / "
+        "assigning operator (every 8- and 16-bit value, boundaries of the wider types); stmems: members (non-const get, no_init, copy, "
+        "move), strong_typedef_map/_apply/_construct_cast, << >>. rels type maxlen a: digest over every value b of the type with "
+        "components in {0,1,2} of == != < > <= >= (as offered), hash agreement (fcppt hash object, std::hash, fcppt::hash) and "
+        "type-specific extras - run for every a, i.e. all ordered pairs; relsr: the same with the two values built along every pair "
+        "of construction routes (constructor, assignment over another value, element-wise writes, insert+erase, reserve/resize/pop, "
+        "inside a buffer pre-filled with a byte pattern); selfs: the same object on both sides; relb: all pairs of 19 (15) boundary "
+        "values of int (short) in one component; tree-shapes: all pairs of 122 trees (every shape up to 5 nodes, one node different); "
+        "sequences: one difference at every position / proper prefixes for 4..9 and 15..64 elements; "
         "tri: all triples (a,b,c) checked for symmetry/transitivity of ==, transitivity of < and of incomparability, and "
-        "compatibility (every a, both tiers; trees up to 3 nodes, raw_vectors up to 3 / 4 elements). "
+        "compatibility (every a, both tiers; trees up to 3 nodes, raw_vectors up to 3 / 4 elements; values built along alternating routes). "
         "An op counts as non-trivial unless it is malformed on purpose (bad-op); distinct = distinct op lines; weight = number of "
         "operand pairs / triples the line stands for.")
 ASSUMPTIONS = [
-    "C integer types int/unsigned/long/unsigned long are 32/32/64/64-bit two's complement (LP64); no promotion below int occurs",
+    "C integer types signed/unsigned char, short, int, long are 8/16/32/64-bit two's complement (LP64); operands narrower than int are "
+    "promoted to int; conversion to a narrower / signed type is modulo 2^n (C++20)",
     "std::equal, std::lexicographical_compare, std::pair <, std::variant == and <, std::tuple ==, std::array ==, std::list == behave "
-    "as the C++20 standard specifies (transcribed as stdEqual3, lexCompare, pairLt, Var.eq/lt, equalV, Tree.eqList)",
+    "as the C++20 standard specifies (transcribed as stdEqual3, lexCompare, pairLt, Var.eq/lt = SumV.eq/lt, equalV = Pair.eq, Tree.eqList)",
     "hash_combine and std::hash of the components are uninterpreted (the hash theorems hold for any)",
-    "the component type is int with the built-in == and < (LawfulEq, StrictTotal hold); theorems are stated for any component type with these laws",
-    "addresses of the elements of one array are ordered like their indices (reference / shared_ptr values are built on one array)",
+    "the component types are int / long / short with the built-in == and < (LawfulEq, StrictTotal hold) and - for boxes - the built-in "
+    "subtraction without overflow (SubCancel); theorems are stated for any component types with these laws",
+    "addresses of the elements of one array are ordered like their indices and the null pointer is below all of them "
+    "(reference / shared_ptr / iterator::range values are built on one array)",
     "std::variant never becomes valueless here (all alternatives are nothrow-movable scalars)",
+    "box values: pos + size is representable (the class stores min and max = pos + size)",
 ]
 TRUSTED = ["harness/c17.cpp and the digest/line protocol (vh.hpp, Proto.lean)",
            "g++ 12 + ASan/UBSan as witness for memory safety of the instantiations (e.g. std::equal reading past the shorter range)",
@@ -69,12 +81,62 @@ TYPES = {
     "tree": ([2, 4, 6, 8], _tree_ok),
     "rv": ([0, 1, 2, 3, 4], lambda l: True),
     "ref": ([1], lambda l: True),
-    "sp": ([2], lambda l: l[1] <= 1),
+    "sp": ([2], lambda l: True),
     "recu": ([1], lambda l: True),
+    "vec1": ([1], lambda l: True),
+    "vec4": ([4], lambda l: True),
+    "dim3": ([3], lambda l: True),
+    "mat23": ([6], lambda l: True),
+    "box3": ([6], lambda l: True),
+    "sph3": ([4], lambda l: True),
+    "grid1": ([1, 2, 3], lambda l: len(l) - 1 == l[0]),
+    "grid3": ([3, 4, 5, 7], lambda l: len(l) - 3 == l[0] * l[1] * l[2]),
+    "bf9": ([4], lambda l: max(l[:3]) <= 1),
+    "nest": ([0, 1, 2, 3], lambda l: l == [] or (l[0] == 0 and len(l) <= 2) or (l[0] == 1 and len(l) == 3)),
+    "unit": ([0], lambda l: True),
+    "itr": ([2], lambda l: l[0] <= l[1]),
 }
+# number of construction routes the harness offers per type (the model is a value model: routes do not matter)
+ROUTES = {"unit": 1, "bf3": 1, "bf9": 1, "nest": 2, "opt": 3, "eith": 3, "var": 3, "tup": 2, "arr": 2, "earr": 2, "rec": 2, "sti": 2, "recu": 5, "vec1": 3, "vec2": 3,
+          "vec3": 3, "vec4": 3, "dim2": 3, "dim3": 3, "mat22": 2, "mat23": 2, "box2": 3, "box3": 3, "sph2": 2, "sph3": 2,
+          "grid": 4, "grid1": 4, "grid3": 4, "tree": 3, "rv": 5, "ref": 3, "sp": 3, "itr": 2}
+# maxlen for the route-pair digests (quick, thorough) where the full domain would be too large
+MAXLEN_ROUTES = {"tree": (6, 8), "rv": (3, 3), "grid3": (5, 7)}
+# value positions for the boundary-value digests: type -> list of (base, [(pos, kind)]), kind 0 = 16-bit values, 1 = 32-bit
+BOUNDARY_POS = {
+    "opt": [([1], [(0, 1)])],
+    "eith": [([0, 1], [(1, 1)]), ([1, 1], [(1, 1)])],
+    "var": [([0, 1], [(1, 1)]), ([1, 1], [(1, 1)]), ([2, 1], [(1, 0)])],
+    "tup": [([1, 1, 1], [(0, 1), (1, 1), (2, 0)])],
+    "arr": [([1, 1, 1], [(0, 1), (1, 1), (2, 1)])],
+    "earr": [([1, 1, 1], [(0, 1), (1, 1), (2, 1)])],
+    "rec": [([1, 1], [(0, 1), (1, 1)])],
+    "sti": [([1], [(0, 1)])],
+    "recu": [([1], [(0, 1)])],
+    "vec1": [([1], [(0, 1)])],
+    "vec2": [([1, 1], [(0, 1), (1, 1)])],
+    "vec3": [([1, 1, 1], [(0, 1), (1, 1), (2, 1)])],
+    "vec4": [([1, 1, 1, 1], [(0, 1), (1, 1), (2, 1), (3, 1)])],
+    "dim2": [([1, 1], [(0, 1), (1, 1)])],
+    "dim3": [([1, 1, 1], [(0, 1), (1, 1), (2, 1)])],
+    "mat22": [([1, 1, 1, 1], [(0, 1), (1, 1), (2, 1), (3, 1)])],
+    "mat23": [([1, 1, 1, 1, 1, 1], [(k, 1) for k in range(6)])],
+    "box2": [([1, 1, 1, 1], [(k, 0) for k in range(4)])],
+    "box3": [([1, 1, 1, 1, 1, 1], [(k, 0) for k in range(6)])],
+    "sph2": [([1, 1, 1], [(0, 1), (1, 1), (2, 1)])],
+    "sph3": [([1, 1, 1, 1], [(k, 1) for k in range(4)])],
+    "grid": [([2, 2, 1, 1, 1, 1], [(k, 1) for k in range(2, 6)])],
+    "grid1": [([3, 1, 1, 1], [(1, 1), (2, 1), (3, 1)])],
+    "grid3": [([1, 2, 1, 1, 1], [(3, 1), (4, 1)])],
+    "tree": [([1, 2, 1, 0, 1, 1, 1, 0], [(0, 1), (2, 1), (4, 1), (6, 1)])],
+    "rv": [([1, 1, 1], [(0, 1), (1, 1), (2, 1)])],
+}
+B16 = [-32768, -32767, -257, -256, -129, -128, -1, 0, 1, 127, 128, 255, 256, 32766, 32767]
+B32 = [-2147483648, -2147483647, -16777217, -16777216, -65537, -65536, -32769, -32768, -1, 0, 1,
+       32767, 32768, 65535, 65536, 16777216, 16777217, 2147483646, 2147483647]
 # maxlen used for the pair digests and for the triple checks
 MAXLEN_PAIRS = {"tree": (8, 8), "rv": (3, 4)}     # (quick, thorough)
-MAXLEN_TRI = {"tree": (6, 6), "rv": (3, 4)}
+MAXLEN_TRI = {"tree": (6, 6), "rv": (3, 4), "mat23": (0, 0), "box3": (0, 0), "grid3": (5, 5)}   # 0: no triple batch (729^3)
 
 _dom_cache = {}
 
@@ -119,10 +181,14 @@ def nontrivial(op, result):
 
 def weight(op):
     t = op.split()
-    if t[0] == "sts":
+    if t[0] in ("sts", "stmems"):
         return int(t[4]) - int(t[3]) + 1
-    if t[0] == "rels":
+    if t[0] == "stselfs":
+        return int(t[3]) - int(t[2]) + 1
+    if t[0] in ("rels", "relsr", "selfs"):
         return len(domain(t[1], int(t[2])))
+    if t[0] == "relb":
+        return len(B16 if t[4] == "0" else B32) ** 2
     if t[0] == "tri":
         return len(domain(t[1], int(t[2]))) ** 2
     return 1
@@ -132,8 +198,25 @@ def refine(op):
     t = op.split()
     if t[0] == "sts":
         return [f"st {t[1]} {t[2]} {b}" for b in range(int(t[3]), int(t[4]) + 1)]
+    if t[0] == "stmems":
+        return [f"stmem {t[1]} {t[2]} {b}" for b in range(int(t[3]), int(t[4]) + 1)]
+    if t[0] == "stselfs":
+        return [f"stself {t[1]} {a}" for a in range(int(t[2]), int(t[3]) + 1)]
     if t[0] == "rels":
         return [f"rel {t[1]} {t[3]} {enc(b)}" for b in domain(t[1], int(t[2]))]
+    if t[0] == "relsr":
+        return [f"relr {t[1]} {t[3]} {t[4]} {t[5]} {enc(b)}" for b in domain(t[1], int(t[2]))]
+    if t[0] == "selfs":
+        return [f"self {t[1]} {t[3]} {enc(a)}" for a in domain(t[1], int(t[2]))]
+    if t[0] == "relb":
+        base, pos, vals = dec(t[2]), int(t[3]), (B16 if t[4] == "0" else B32)
+        out = []
+        for u in vals:
+            for v in vals:
+                a, b = list(base), list(base)
+                a[pos], b[pos] = u, v
+                out.append(f"relr {t[1]} {u & 11} {v & 9} {enc(a)} {enc(b)}")
+        return out
     if t[0] == "tri":
         d = domain(t[1], int(t[2]))
         return [f"tri1 {t[1]} {t[3]} {enc(b)} {enc(c)}" for b in d for c in d]
@@ -144,7 +227,12 @@ U32 = [0, 1, 2, 3, 127, 128, 255, 256, 65535, 65536, 2 ** 31 - 1, 2 ** 31, 2 ** 
 U64 = [0, 1, 2, 3, 255, 65536, 2 ** 32 - 1, 2 ** 32, 2 ** 32 + 1, 2 ** 63 - 1, 2 ** 63, 2 ** 63 + 1, 2 ** 64 - 3, 2 ** 64 - 2, 2 ** 64 - 1]
 I32 = [-2 ** 31, -2 ** 31 + 1, -2 ** 16, -46341, -129, -128, -2, -1, 0, 1, 2, 127, 128, 46340, 46341, 2 ** 16, 2 ** 31 - 2, 2 ** 31 - 1]
 I64 = [-2 ** 63, -2 ** 63 + 1, -2 ** 32, -3037000500, -2, -1, 0, 1, 2, 3037000499, 3037000500, 2 ** 32, 2 ** 63 - 2, 2 ** 63 - 1]
-RANGES = {"i32": (-2 ** 31, 2 ** 31 - 1), "u32": (0, 2 ** 32 - 1), "i64": (-2 ** 63, 2 ** 63 - 1), "u64": (0, 2 ** 64 - 1)}
+I16 = [-32768, -32767, -256, -255, -182, -181, -129, -128, -2, -1, 0, 1, 2, 127, 128, 181, 182, 255, 256, 32766, 32767]
+U16 = [0, 1, 2, 3, 127, 128, 255, 256, 257, 32767, 32768, 46340, 46341, 65533, 65534, 65535]
+RANGES = {"i32": (-2 ** 31, 2 ** 31 - 1), "u32": (0, 2 ** 32 - 1), "i64": (-2 ** 63, 2 ** 63 - 1), "u64": (0, 2 ** 64 - 1),
+          "i8": (-128, 127), "u8": (0, 255), "i16": (-32768, 32767), "u16": (0, 65535)}
+BOUNDARY = {"i32": I32, "u32": U32, "i64": I64, "u64": U64, "i16": I16, "u16": U16,
+            "i8": [-128, -127, -1, 0, 1, 126, 127], "u8": [0, 1, 127, 128, 254, 255]}
 
 
 def rand_int(r, ty):
@@ -153,7 +241,7 @@ def rand_int(r, ty):
     if k == 0:
         return r.range(lo, hi)
     if k == 1:
-        return r.choice({"i32": I32, "u32": U32, "i64": I64, "u64": U64}[ty])
+        return r.choice(BOUNDARY[ty])
     if k == 2:
         v = r.range(-200, 200)
         return min(hi, max(lo, v))
@@ -174,6 +262,35 @@ def rand_tree(r, n, comp):
     return out
 
 
+def tree_shapes(n):
+    """all ordered trees with n nodes, as nested lists of children"""
+    if n == 1:
+        return [[]]
+    out = []
+    # forests with n-1 nodes
+    def forests(m):
+        if m == 0:
+            return [[]]
+        res = []
+        for k in range(1, m + 1):
+            for first in tree_shapes(k):
+                for rest in forests(m - k):
+                    res.append([first] + rest)
+        return res
+    return forests(n - 1)
+
+
+def tree_enc(shape, values):
+    """pre-order encoding value,number-of-children of a shape with the given pre-order values"""
+    it = iter(values)
+    def go(sh):
+        out = [next(it), len(sh)]
+        for c in sh:
+            out += go(c)
+        return out
+    return go(shape)
+
+
 def rand_value(r, ty, wide):
     comp = (lambda: r.range(-3, 3)) if wide else (lambda: r.below(3))
     if ty == "opt":
@@ -182,15 +299,29 @@ def rand_value(r, ty, wide):
         return [r.below(2), comp()]
     if ty == "var":
         return [r.below(3), comp()]
-    if ty == "bf3":
+    if ty in ("bf3", "bf9"):
         return [r.below(2), r.below(2), r.below(2), r.below(3)]
     if ty == "ref":
         return [r.below(3)]
     if ty == "sp":
-        return [r.below(3), r.below(2)]
+        return [r.below(3), r.below(3)]
     if ty == "grid":
         w, h = r.below(4), r.below(4)
         return [w, h] + [comp() for _ in range(w * h)]
+    if ty == "grid1":
+        w = r.below(7)
+        return [w] + [comp() for _ in range(w)]
+    if ty == "grid3":
+        w, h, d = r.below(3), r.below(3), r.below(4)
+        return [w, h, d] + [comp() for _ in range(w * h * d)]
+    if ty == "unit":
+        return []
+    if ty == "nest":
+        k = r.below(4)
+        return [[], [0], [0, comp()], [1, comp(), comp()]][k]
+    if ty == "itr":
+        i = r.below(3)
+        return [i, r.range(i, 2)]
     if ty == "tree":
         return rand_tree(r, r.range(1, 7), comp)
     if ty == "rv":
@@ -210,10 +341,29 @@ def near(r, ty, v):
             return [w[1], w[0]] + w[2:]      # transpose the extent, keep the content
         w[i] += r.choice([-1, 1])
         return w
+    if ty == "grid3":
+        if i < 3:
+            j = (i + 1) % 3
+            w[i], w[j] = w[j], w[i]          # exchange two extents, keep the content
+            return w
+        w[i] += r.choice([-1, 1])
+        return w
+    if ty == "grid1":
+        if i == 0:
+            return w
+        w[i] += r.choice([-1, 1])
+        return w
+    if ty == "itr":
+        return [w[0], w[0]] if i == 0 else [w[1], w[1]]
+    if ty == "nest":
+        if i == 0:
+            return [[], [0], [0, 1], [1, 0, 1]][r.below(4)]
+        w[i] += r.choice([-1, 1])
+        return w
     if ty == "tree":
         w[i - i % 2] += r.choice([-1, 1])    # only values; the shape stays
         return w
-    if ty == "bf3":
+    if ty in ("bf3", "bf9"):
         if i == 3:
             w[3] = (w[3] + 1) % 3
         else:
@@ -222,7 +372,7 @@ def near(r, ty, v):
     if ty == "ref":
         return [(w[0] + 1) % 3]
     if ty == "sp":
-        w[i] = (w[i] + 1) % (3 if i == 0 else 2)
+        w[i] = (w[i] + 1) % 3
         return w
     if ty in ("eith", "var") and i == 0:
         w[0] = (w[0] + 1) % (2 if ty == "eith" else 3)
@@ -245,13 +395,43 @@ def batches(rng, tier):
     ops = [f"st i32 {a} {b}" for a in I32 for b in I32] + [f"st i64 {a} {b}" for a in I64 for b in I64]
     yield Batch("st-signed-boundary", ops, exhaustive=True,
                 note="all pairs of overflow boundary values of int and long (`ub` where the plain operator overflows)")
+    # types narrower than int: integral promotion inside op=, ++, -- (binary / unary operators are ill-formed there)
+    ops = [f"sts i8 {a} -128 127" for a in range(-128, 128)] + [f"sts u8 {a} 0 255" for a in range(0, 256)]
+    yield Batch("st-narrow-exhaustive", ops, exhaustive=True,
+                note="all operand pairs of signed char and of unsigned char: op=, ++/--, comparisons, hash, type_iso")
+    ops = [f"st i16 {a} {b}" for a in I16 for b in I16] + [f"st u16 {a} {b}" for a in U16 for b in U16]
+    yield Batch("st-narrow-boundary", ops, exhaustive=True,
+                note="all pairs of boundary values of short / unsigned short (`ub`: unsigned short product beyond int)")
+    # the SAME object on both sides of every binary / assigning operator
+    ops = ["stselfs i8 -128 127", "stselfs u8 0 255"]
+    ops += [f"stselfs i16 {lo} {lo + 4095}" for lo in range(-32768, 32768, 4096)]
+    ops += [f"stselfs u16 {lo} {lo + 4095}" for lo in range(0, 65536, 4096)]
+    ops += ["stselfs i32 -128 127", "stselfs u32 0 255", "stselfs i64 -128 127", "stselfs u64 0 255"]
+    ops += [f"stself {ty} {a}" for ty in ("i32", "u32", "i64", "u64") for a in BOUNDARY[ty]]
+    ops += [f"stselfs i32 {2 ** 31 - 256} {2 ** 31 - 1}", f"stselfs i32 {-2 ** 31} {-2 ** 31 + 255}",
+            f"stselfs i32 {2 ** 30 - 128} {2 ** 30 + 127}", f"stselfs i32 46213 46468", f"stselfs i32 -46468 -46213",
+            f"stselfs u32 {2 ** 32 - 256} {2 ** 32 - 1}", f"stselfs u32 {2 ** 31 - 128} {2 ** 31 + 127}",
+            f"stselfs u64 {2 ** 64 - 256} {2 ** 64 - 1}", f"stselfs i64 {2 ** 63 - 256} {2 ** 63 - 1}",
+            f"stselfs i64 {-2 ** 63} {-2 ** 63 + 255}", f"stselfs i64 3037000372 3037000627"]
+    yield Batch("st-self", ops, exhaustive=True,
+                note="x op x, x op= x, x = x, comparisons and hash with the same object on both sides: every value of the 8- and "
+                     "16-bit types, [-128,127] / [0,255] and the overflow boundaries of the wider types")
+    # members and helper functions
+    ops = [f"stmems i32 {a} -8 8" for a in range(-8, 9)] + [f"stmems u8 {a} 0 255" for a in (0, 1, 65, 128, 255)]
+    ops += [f"stmems i8 {a} -128 127" for a in (-128, -1, 0, 48, 127)]
+    ops += [f"stmem {ty} {a} {b}" for ty in ("i32", "u32", "i64", "u64", "i16", "u16") for a in BOUNDARY[ty] for b in BOUNDARY[ty]]
+    yield Batch("st-members", ops, exhaustive=True,
+                note="non-const get(), no_init, copy / move, strong_typedef_map / _apply / _construct_cast, << and >>")
     r = rng.fork("st-random")
     ops = []
     for _ in range(200000 if thorough else 3000):
-        ty = r.choice(["i32", "u32", "i64", "u64"])
+        ty = r.choice(["i32", "u32", "i64", "u64", "i16", "u16"])
         a = rand_int(r, ty)
         b = a if r.chance(1, 8) else rand_int(r, ty)
         ops.append(f"st {ty} {a} {b}")
+        if r.chance(1, 8):
+            ops.append(f"stmem {ty} {a} {b}")
+            ops.append(f"stself {ty} {a}")
     ops += [f"sts u32 {a} 0 255" for a in ([0, 1, 255, 2 ** 32 - 1] if not thorough else list(range(0, 256)) + [2 ** 32 - 1])]
     if thorough:
         # the same 256-wide windows at the ends of the ranges (overflow on one side)
@@ -266,11 +446,86 @@ def batches(rng, tier):
         d = domain(ty, ml)
         yield Batch(f"pairs-{ty}", [f"rels {ty} {ml} {enc(a)}" for a in d], exhaustive=True,
                     note=f"all {len(d)}^2 ordered pairs of values with components in {{0,1,2}} (encodings up to length {ml})")
+    # ---- the same pairs with the two values reached along different construction routes (representation must not matter)
+    for ty, nr in ROUTES.items():
+        ml = MAXLEN_ROUTES[ty][1 if thorough else 0] if ty in MAXLEN_ROUTES else fixed_len(ty)
+        d = domain(ty, ml)
+        step = 1
+        if len(d) > 400 and not thorough:
+            step = 5            # 729-value domains: every 5th left operand, all right operands
+        rp = [(ra, rb) for ra in range(nr) for rb in range(nr) if (ra, rb) != (0, 0)]
+        # + 8: the object is constructed inside a buffer pre-filled with a byte pattern (padding / inactive bytes differ)
+        rp += [(8 + ra, (ra + 1) % nr) for ra in range(nr)] + [(ra, 8 + ra) for ra in range(nr)] + [(8, 8)]
+        ops = [f"relsr {ty} {ml} {ra} {rb} {enc(a)}" for (ra, rb) in rp for a in d[(ra * nr + rb) % step::step]]
+        yield Batch(f"routes-{ty}", ops, exhaustive=(step == 1),
+                    note=f"all ordered pairs over {len(d)} values for every pair of the {nr} construction routes "
+                         "(constructor, assignment over another value, element-wise writes, insert + erase, reserve / resize …)")
+    # ---- the same object on both sides
+    ops = []
+    for ty in TYPES:
+        ml = pairs_maxlen(ty, thorough)
+        ops += [f"selfs {ty} {ml} {ra}" for ra in list(range(ROUTES.get(ty, 1))) + [8]]
+    yield Batch("self", ops, exhaustive=True, note="x == x, x < x, … hash(x) with the same object on both sides, every value, every route")
+    # ---- boundary values in one component
+    ops = []
+    for ty, lst in BOUNDARY_POS.items():
+        for base, poss in lst:
+            ops += [f"relb {ty} {enc(base)} {pos} {kind}" for pos, kind in poss]
+    yield Batch("boundary-components", ops, exhaustive=True,
+                note="all pairs of 19 boundary values of int (15 of short where the position is a short; boxes: 16-bit, "
+                     "pos + size must not overflow) in each component position, the other components equal")
+    # ---- tree shapes beyond two children, sequences with one difference at every position
+    ops = []
+    vals = []
+    for n in range(1, 6):
+        for sh in tree_shapes(n):
+            vals.append(tree_enc(sh, [1] * n))
+            for k in range(n):
+                vals.append(tree_enc(sh, [1] * k + [0] + [1] * (n - k - 1)))
+    for i, a in enumerate(vals):
+        for j, b in enumerate(vals):
+            ops.append(f"relr tree {i % 3} {j % 3} {enc(a)} {enc(b)}")
+    yield Batch("tree-shapes", ops, exhaustive=True,
+                note=f"all pairs of {len(vals)} trees: every ordered shape up to 5 nodes (up to 4 children), all values equal "
+                     "or exactly one node different")
+    ops = []
+    for n in range(4, 10):
+        seqs = [[1] * n] + [[1] * k + [v] + [1] * (n - k - 1) for k in range(n) for v in (0, 2)]
+        seqs += [[1] * k for k in range(n - 2, n)] + [[1] * (n - 1) + [0], [1] * (n - 1) + [2]]
+        for i, a in enumerate(seqs):
+            for j, b in enumerate(seqs):
+                ops.append(f"relr rv {i % 5} {j % 5} {enc(a)} {enc(b)}")
+                ops.append(f"relr grid1 {i % 4} {j % 4} {enc([len(a)] + a)} {enc([len(b)] + b)}")
+        if n in (4, 6, 8, 9):
+            shapes = {4: [(2, 2), (1, 4), (4, 1)], 6: [(2, 3), (3, 2), (1, 6), (6, 1)], 8: [(2, 4), (4, 2)], 9: [(3, 3)]}[n]
+            full = [q for q in seqs if len(q) == n]
+            for a in full:
+                for b in full:
+                    for (w, h) in shapes:
+                        for (w2, h2) in shapes:
+                            if a is b or (w, h) == (w2, h2):
+                                ops.append(f"rel grid {enc([w, h] + a)} {enc([w2, h2] + b)}")
+    # lengths around 16, 32, 64: difference at the first / a middle / the last position, proper prefix
+    for n in (15, 16, 17, 31, 32, 33, 63, 64):
+        base = [1] * n
+        seqs = [base] + [base[:k] + [v] + base[k + 1:] for k in sorted({0, 7, 8, n // 2, n - 2, n - 1}) for v in (0, 2)] + [base[:-1]]
+        for i, a in enumerate(seqs):
+            for j, b in enumerate(seqs):
+                ops.append(f"relr rv {i % 5} {(j % 5) + 8 * (j % 2)} {enc(a)} {enc(b)}")
+                ops.append(f"relr grid1 {i % 4} {j % 4} {enc([len(a)] + a)} {enc([len(b)] + b)}")
+                if len(a) == n and len(b) == n and n % 2 == 0:
+                    ops.append(f"relr grid {i % 4} {j % 4} {enc([n // 2, 2] + a)} {enc([n // 2, 2] + b)}")
+                    ops.append(f"rel grid {enc([n // 2, 2] + a)} {enc([2, n // 2] + b)}")
+    yield Batch("sequences", ops, exhaustive=True,
+                note="raw_vector / 1-D grid of 4..9 (and 15..17, 31..33, 63, 64) elements: equal, one element different at every position (smaller / larger), "
+                     "proper prefixes; 2-D grids of the same content in every shape of 4, 6, 8, 9 elements")
     # ---- triples
     r = rng.fork("tri")
     for ty in TYPES:
         ml = tri_maxlen(ty, thorough)
         d = domain(ty, ml)
+        if not d:
+            continue
         sel, ex = d, True
         yield Batch(f"triples-{ty}", [f"tri {ty} {ml} {enc(a)}" for a in sel], exhaustive=ex,
                     note=f"all triples over {len(d)} values")
@@ -290,9 +545,6 @@ def batches(rng, tier):
         b = near(r, ty, a)
         c = near(r, ty, b) if r.chance(1, 2) else rand_value(r, ty, True)
         ops.append(f"tri1 {ty} {enc(a)} {enc(b)} {enc(c)}")
-    # malformed encodings must be rejected by both sides
-    ops += ["rel grid 2,2,1 0,0", "rel tree 1,2,0,0 1,0", "rel opt 1,2 -", "rel bf3 2,0,0,0 0,0,0,0", "rel sp 0,2 0,0",
-            "rel ref 3 0", "rel mat22 1,2,3 1,2,3", "rel nosuch 1 1"]
     yield Batch("rel-random", ops, note="random values with components in [-3,3], trees up to 7 nodes, grids up to 3x3, "
                 "raw_vectors up to 6 elements; half of the pairs differ in at most one place")
     # ---- wrappers expose the wrapped object
@@ -309,7 +561,10 @@ MANIFEST = {
                    "and no comparison reads out of bounds (grid, raw_vector under their size invariant); strong_typedef operators are "
                    "unwrap-operate-wrap of the C operator, whose value is the exact integer result (signed, when representable) or the result "
                    "modulo 2^bits (unsigned). The model is tied to the code by a differential correspondence that is exhaustive over "
-                   "[-128,127]^2 for int, over all unsigned boundary pairs, and over all pairs and triples of composite values with components in {0,1,2}."),
+                   "[-128,127]^2 for int, over all pairs of signed / unsigned char (integral promotion), over all unsigned boundary pairs, and over all "
+                   "pairs and triples of composite values with components in {0,1,2} - for every pair of construction routes of the two values "
+                   "(representation independence: stale storage, padding, inactive alternatives, spare capacity), with the same object on both "
+                   "sides, and with boundary values of the component type."),
     "level_note": ("Trusted: Lean kernel + propext/Classical.choice/Quot.sound; fidelity of the hand-written model outside the exercised inputs; "
                    "the standard-library algorithms as transcribed; harness and digest protocol; hashes uninterpreted. No sorry/axiom/native_decide."),
     "technique": "Lean 4 proof over hand-written executable model + exhaustive differential correspondence (ASan/UBSan harness)",
